@@ -47,7 +47,7 @@ impl Check for C14 {
             .into()
     }
     fn budget(t: Tier) -> usize {
-        t.pick(60_000, 1_000_000)
+        t.pick(60_000, 10_000_000)
     }
     fn gen(s: &mut Src, _t: Tier) -> Case {
         let o = GenOpts { density: 1, max_ops: 2, max_values: 2000, images: false, blobs: false, nan_ok: false, fat_chance: (0, 1), ..GenOpts::default() };
